@@ -552,8 +552,13 @@ func (s *Service) handleKeylistUpdateResponse(msg service.DIDCommMsg) error {
 	keylistUpdateCh := s.getKeyUpdateResponseCh(respMsg.ID)
 
 	if keylistUpdateCh != nil {
-		// invoke the channel for the incoming message
-		keylistUpdateCh <- respMsg
+		// invoke the channel for the incoming message; the requester may have left already (a second response for
+		// one request, or a response racing with the requester's time-out): do not wait for it for good
+		select {
+		case keylistUpdateCh <- respMsg:
+		case <-time.After(updateTimeout):
+			return fmt.Errorf("keylist update response %s: nobody is waiting for it", respMsg.ID)
+		}
 	}
 
 	return nil
